@@ -224,7 +224,8 @@ def postMintReq (quote : String) (outs : List Output) (signed : Bool) : Req :=
       (if signed then [("signature", .leaf (.pub "signature"))] else [])) }
 
 /-- `nut03.PostSwapRequest{Inputs: <ins>, Outputs: <outs>}`: `ins` are rendered exactly as the Go value is,
-    i.e. with `witness` and `dleq` whenever the proof carries them. -/
+    i.e. with `witness` and `dleq` whenever the proof carries them (since the fix of F5 the call sites pass
+    `inputsWithoutDLEQ(..)`). -/
 def postSwapReq (ins : List WProof) (outs : List Output) : Req :=
   { ep := .swap,
     body := .node [("inputs", .arr (ins.map (renderProof .input))), ("outputs", .arr (outs.map renderOutput))],
@@ -264,6 +265,10 @@ structure Run (α : Type) where
   reqs : List Req
   st : WState
   ret : Option α
+
+/-- `inputsWithoutDLEQ` (wallet.go, fix of F5): a copy of the proofs with `DLEQ = nil`; witness and everything else
+    stay; the caller's proofs are not touched -/
+def inputsWithoutDLEQ (proofs : List WProof) : List WProof := proofs.map fun proof => { proof with dleq := none }
 
 /-- `constructProofs` (wallet.go 1713-1768): lengths must match, every signature must check; the proof gets
     `DLEQ{E, S, R: hex(rs[i])}` iff the blind signature carried a DLEQ -/
@@ -313,10 +318,10 @@ def takeByAmount : List Nat → List WProof → List WProof × List WProof
 
 /-! ## operation paths -/
 
-/-- `swap()` (wallet.go 709-732): `nut03.PostSwapRequest{Inputs: swapRequest.inputs, Outputs: swapRequest.outputs}`,
+/-- `swap()`: `nut03.PostSwapRequest{Inputs: inputsWithoutDLEQ(swapRequest.inputs), Outputs: swapRequest.outputs}`,
     then constructProofs.  `ans = none`: PostSwap returned an error. -/
 def swap (st : WState) (inputs : List WProof) (outputs : List Output) (ans : Option (List Sig)) : Run (List WProof) :=
-  let request := postSwapReq inputs outputs
+  let request := postSwapReq (inputsWithoutDLEQ inputs) outputs
   match ans with
   | none => { reqs := [request], st := st, ret := none }
   | some sigs => { reqs := [request], st := st, ret := constructProofs sigs outputs }
@@ -327,8 +332,8 @@ def swap (st : WState) (inputs : List WProof) (outputs : List Output) (ans : Opt
 def swapToSend (st : WState) (proofsToSwap : List WProof) (send change : List Output) (ans : Option (List Sig)) :
     Run (List WProof) :=
   let blindedMessages := sortOutputs (send ++ change)
-  -- 1431: swapRequest := nut03.PostSwapRequest{Inputs: proofsToSwap, Outputs: blindedMessages}
-  let swapRequest := postSwapReq proofsToSwap blindedMessages
+  -- swapRequest := nut03.PostSwapRequest{Inputs: inputsWithoutDLEQ(proofsToSwap), Outputs: blindedMessages}
+  let swapRequest := postSwapReq (inputsWithoutDLEQ proofsToSwap) blindedMessages
   match ans with
   | none => { reqs := [swapRequest], st := st, ret := none }
   | some sigs =>
@@ -408,7 +413,8 @@ structure SwapProofsOracle where
   deriving Repr
 
 /-- `swapProofs` (wallet.go 1157-1210): mint quote at `to` + melt quote at `from` until the amounts fit, then
-    `nut05.PostMeltBolt11Request{Quote: meltQuoteResponse.Quote, Inputs: proofs}` at `from` (no outputs), then
+    `nut05.PostMeltBolt11Request{Quote: meltQuoteResponse.Quote, Inputs: inputsWithoutDLEQ(proofs)}` at `from` (no
+    outputs), then
     MintTokens at `to`. -/
 def swapProofs (st : WState) (proofs : List WProof) (o : SwapProofsOracle) : Run Nat :=
   let round := [postMintQuoteReq 0, postMeltQuoteReq]
@@ -417,8 +423,8 @@ def swapProofs (st : WState) (proofs : List WProof) (o : SwapProofsOracle) : Run
   | .mintQuoteErr => { reqs := retries ++ [postMintQuoteReq 0], st := st, ret := none }
   | .meltQuoteErr => { reqs := retries ++ round, st := st, ret := none }
   | .ok =>
-    -- 1193: meltBolt11Request := nut05.PostMeltBolt11Request{Quote: meltQuoteResponse.Quote, Inputs: proofs}
-    let meltBolt11Request := postMeltReq "quote" proofs []
+    -- meltBolt11Request := nut05.PostMeltBolt11Request{Quote: meltQuoteResponse.Quote, Inputs: inputsWithoutDLEQ(proofs)}
+    let meltBolt11Request := postMeltReq "quote" (inputsWithoutDLEQ proofs) []
     match o.meltPaid with
     | some true =>
       let m := mintTokens st "quote" o.mintQuoteState true o.mintOuts o.mintAns
@@ -498,8 +504,8 @@ def melt (st : WState) (quote : String) (pendingCheck : Option Bool) (sel : Sel)
   | none => { reqs := pre ++ g.reqs, st := g.st, ret := none }
   | some proofs =>
     let st1 := { g.st with pending := g.st.pending ++ proofs }
-    -- 926: meltBolt11Request := nut05.PostMeltBolt11Request{Quote: quote.QuoteId, Inputs: proofs, Outputs: outputs}
-    let meltBolt11Request := postMeltReq quote proofs blanks
+    -- meltBolt11Request := nut05.PostMeltBolt11Request{Quote: quote.QuoteId, Inputs: inputsWithoutDLEQ(proofs), Outputs: outputs}
+    let meltBolt11Request := postMeltReq quote (inputsWithoutDLEQ proofs) blanks
     let reqs := pre ++ g.reqs ++ [meltBolt11Request]
     let unpend (s : WState) : WState := { s with pending := deleteProofs s.pending proofs }
     match ans with
